@@ -13,7 +13,7 @@ EXPLANATION = ('Lock-freedom as code shape: (R06.1) no lock/wait/sleep primitive
                'plain/sharded get/touch/set/put has a finite static bound on filesystem events (reported). Kernel-side '
                'progress of the primitives themselves is trusted, not decided.')
 ASSUMPTIONS = ['std/filetime/tempfile primitives other than the classified lock/block ones do not wait on other processes']
-FLOORS = {'R06.1': 40, 'R06.2': 1, 'R06.3': 6, 'R06.4': 2, 'R06.5': 8}
+FLOORS = {'R06.1': 40, 'R06.2': 1, 'R06.3': 3, 'R06.4': 2, 'R06.5': 8}   # R06.3: 6 loops today; a clean-up may legitimately remove some
 FIXTURE_RULES = ['R06.1', 'R06.2', 'R06.3']
 
 FSISH = prims.FS_CLASSES - {'seek', 'read', 'flush', 'fd_raw'}
